@@ -83,7 +83,7 @@ func ZZ_C10_hpke_hybridKEM_lengths() {
 	_, sk, _ := h.kemA.GenerateKeyPair()
 	_, skB, _ := h.kemB.GenerateKeyPair()
 	hsk := &hybridKEMPrivKey{privA: sk, privB: skB}
-	n := zzLen("len", 0, 14)
+	n := zzLen("len", 0, zzT(14, 40))
 	in := make([]byte, n)
 	zzFill("in", in)
 	switch zzPick("entry", 0, 1, 2) {
